@@ -184,9 +184,12 @@ def builtin_cases(draw, tier):
                                        max_spikes=2, max_bumps=2))  # bulk data last (see strategies/data.py)
     if unit != 1.0:
         X = [[v * unit for v in row] for row in X]
+    as32 = (not counts) and cost in ("L2Cost", "GaussianVarCost") and unit == 1.0 and history is None and len(X) % 5 == 0
+    if as32:
+        X = [[float(np.float32(v + 1000.0)) for v in row] for row in X]  # the numbers a float32 array holds (a level of 1000)
     if counts:
         X = [[float(round((v / unit + 14) * 2e7)) for v in row] for row in X]
-    return {"cost": cost, "msl": msl, "X": X, "penalty_scale": scale * (4e14 if counts else 1.0), "history": history, "counts_int64": counts}
+    return {"cost": cost, "msl": msl, "X": X, "penalty_scale": scale * (4e14 if counts else 1.0), "history": history, "counts_int64": counts, "as_float32": as32}
 
 
 def check_builtin(case):
@@ -223,6 +226,8 @@ def check_builtin(case):
             if history == "scorer_prefit_wide" and not K.prefit_scorer_wide(det, X):
                 history = None
             Xd = X.astype(np.int64) if case.get("counts_int64") else X  # the detector gets integers, the reference floats
+            if case.get("as_float32"):
+                Xd = X.astype(np.float32)
             det.fit(Xd)
             Xp = K.used_buffer(det, Xd, history.endswith("frame")) if history and history.startswith("used_buffer") else Xd
             if history and history.startswith("predicted_on"):
@@ -241,7 +246,7 @@ def check_builtin(case):
         return float(T[s, e])
 
     classes = [f"cost={case['cost']}", f"p={p}"] + ([f"history={history}"] if history else []) + \
-        (["int64_counts"] if case.get("counts_int64") else [])
+        (["int64_counts"] if case.get("counts_int64") else []) + (["float32_on_a_level"] if case.get("as_float32") else [])
     scale = float(np.nanmax(np.abs(T))) + penalty
     tol = 1e-9 * (1.0 + scale)
     # precondition of the property: splitting never increases the cost (on this table)
